@@ -16,7 +16,7 @@ pub fn run(tier: Tier, seed: u64) -> i32 {
     let acc = run_histories(
         seed,
         per_shard,
-        move |_r| HistCfg { ops, lifecycle_ext: true, seed_growth: true, w_swap: 47, w_liq: 30, w_fees: 5, w_lifecycle: 13, w_clock: 2, w_setters: 2, w_reward: 2, ..Default::default() },
+        move |_r| HistCfg { ops, lifecycle_ext: true, allow_adaptive: true, seed_growth: true, w_swap: 47, w_liq: 30, w_fees: 5, w_lifecycle: 13, w_clock: 2, w_setters: 2, w_reward: 2, ..Default::default() },
         || vec![Box::new(C05::default()) as Box<dyn Monitor>],
     );
     rep.acc = acc;
